@@ -1079,7 +1079,7 @@ class XsdElement(XsdComponent, ParticleMixin,
             elif self.default is not None:
                 if context.use_defaults:
                     elem.text = self.default
-            elif validation != 'skip' and not xsd_type.text_is_valid(''):
+            elif validation != 'skip' and not xsd_type.text_is_valid('', context):
                 errors.append(_("missing value for an element that can't be empty"))
 
         elif isinstance(xsd_type.content, XsdSimpleType):
@@ -1101,7 +1101,7 @@ class XsdElement(XsdComponent, ParticleMixin,
             elif self.default is not None:
                 if context.use_defaults:
                     elem.text = self.default
-            elif validation != 'skip' and not xsd_type.content.text_is_valid(''):
+            elif validation != 'skip' and not xsd_type.content.text_is_valid('', context):
                 errors.append(_("missing value for an element that can't be empty"))
 
         else:
